@@ -29,11 +29,11 @@ EXHAUSTIVE = {"quick": True, "thorough": True}
 SOFT_LIMIT = {"quick": 240, "thorough": 1700}
 REQUIRED_FUNCS = ["sempler/utils.py:mec", "sempler/utils.py:all_dags", "sempler/utils.py:is_consistent_extension",
                   "sempler/utils.py:chain_graph_MEC", "sempler/utils.py:vstructures"]
-REQUIRED_COUNTERS = {"quick": {"all_dags:empty": 50, "all_dags:multi": 200, "ice:true": 500, "ice:false": 500, "mec:chain-shortcut": 5},
-                     "thorough": {"all_dags:empty": 500, "all_dags:multi": 2000, "ice:true": 5000, "ice:false": 5000, "mec:chain-shortcut": 5}}
+REQUIRED_COUNTERS = {"quick": {"all_dags:empty": 50, "all_dags:multi": 200, "ice:true": 500, "ice:false": 500, "mec:chain-shortcut": 5, "embedded:max-label>=8": 500},
+                     "thorough": {"all_dags:empty": 500, "all_dags:multi": 2000, "ice:true": 5000, "ice:false": 5000, "mec:chain-shortcut": 5, "embedded:max-label>=8": 500}}
 
-N = {"quick": {"dag5": 3000, "weighted": 1500, "sampled": 300, "chain_max": 10},
-     "thorough": {"dag5": 0, "weighted": 20000, "sampled": 6000, "chain_max": 12}}
+N = {"quick": {"dag5": 3000, "weighted": 1500, "sampled": 900, "chain_max": 10, "pdag5": 12000},
+     "thorough": {"dag5": 0, "weighted": 100000, "sampled": 40000, "chain_max": 12, "pdag5": 0}}
 
 
 def gen(tier, seed, shard, nshards):
@@ -42,6 +42,8 @@ def gen(tier, seed, shard, nshards):
         yield "pdag", c
     for c in _gc.iter_dag_cases((1, 2, 3, 4) if tier == "quick" else (1, 2, 3, 4, 5), shard, nshards):
         yield "dag", c
+    for code in _gc.sample_pdag5_codes(("C07", seed), n["pdag5"], shard, nshards):
+        yield "pdag", {"p": 5, "code": code}
     if n["dag5"]:
         codes = G.all_dag_codes(5)
         rng = util.rng_for("C07", seed, "dag5")
@@ -52,6 +54,11 @@ def gen(tier, seed, shard, nshards):
     for p in range(1, n["chain_max"] + 1):
         if p % nshards == shard:
             yield "chain", {"p": p}
+    # relabelled copies of the small graphs inside 9..13 nodes (labels >= 8 included)
+    for c in _gc.iter_pdag_cases((3, 4), shard, nshards):
+        yield "embedded-pdag", dict(c, P=9 + c["code"] % 5)
+    for c in _gc.iter_dag_cases((3, 4), shard, nshards):
+        yield "embedded-dag", dict(c, P=9 + c["code3"] % 5)
     for k in range(n["weighted"]):
         if k % nshards == shard:
             rng = util.rng_for("C07", seed, "w", k)
@@ -60,13 +67,16 @@ def gen(tier, seed, shard, nshards):
     for k in range(n["sampled"]):
         if k % nshards == shard:
             if k % 2:
-                yield "sampled-pdag", {"masks": _gc.sampled_pdag(("C07", seed, "sp", k), 6, 8, max_und=9)}
+                yield "sampled-pdag", {"masks": _gc.sampled_pdag(("C07", seed, "sp", k), 6, 12, max_und=9, max_edges=11)}
             else:
-                yield "sampled-dag", {"masks": _gc.sampled_dag(("C07", seed, "sd", k), 6, 8, max_edges=11)}
+                yield "sampled-dag", {"masks": _gc.sampled_dag(("C07", seed, "sd", k), 6, 12, max_edges=11)}
+    for k in range(n["weighted"] // 3):
+        if k % nshards == shard:
+            yield "weighted", {"W": _gc.near_chain(("C07", seed, "nc", k))}
 
 
 def _check_all_dags(U, out, family, case, rec, key):
-    P = gmat.to_np(out)
+    P = gmat.hostile_array(gmat.to_np(out), sum(out) + len(out))
     want = set(tuple(g) for g in G.extensions(out))
     und = _gc.n_undirected(out)
     rec.case(family, case, bool(und >= 1 or len(want) != 1), key=key)
@@ -164,6 +174,21 @@ def judge(family, case, rec):
         key = (case["p"], case["code"])
         want = _check_all_dags(U, out, family, case, rec, key)
         _check_ice(U, out, want, family, case, rec, util.rng_for("C07x", case["p"], case["code"]) if case["code"] % 7 == 0 else None)
+    elif family == "embedded-pdag":
+        small = G.pdag_from_code(case["p"], case["code"])
+        if not G.directed_part_acyclic(small) or G.n_edges(small) < 2:
+            return
+        out = gmat.embed_any(small, case["P"], util.rng_for("C07e", case["p"], case["code"]), case.get("code", case.get("code3", 0)) // 2)
+        rec.count("embedded:max-label>=8" if any(out[i] or G.transpose(out)[i] for i in range(8, len(out))) else "embedded:labels<8")
+        want = _check_all_dags(U, out, family, case, rec, ("e", case["p"], case["code"]))
+        _check_ice(U, out, want, family, case, rec)
+    elif family == "embedded-dag":
+        small = G.dag_from_code3(case["p"], case["code3"])
+        if G.n_edges(small) < 2:
+            return
+        out = gmat.embed_any(small, case["P"], util.rng_for("C07e", case["p"], case["code3"]), case.get("code", case.get("code3", 0)) // 2)
+        rec.count("embedded:max-label>=8" if any(out[i] or G.transpose(out)[i] for i in range(8, len(out))) else "embedded:labels<8")
+        _check_mec(U, out, family, case, rec, ("e", case["p"], case["code3"]))
     elif family == "sampled-pdag":
         out = list(case["masks"])
         want = _check_all_dags(U, out, family, case, rec, None)
